@@ -4,7 +4,10 @@ properties not claimed). Run after editing either."""
 import json, os
 V = os.path.dirname(os.path.dirname(os.path.abspath(__file__)))
 props = [json.loads(l)["id"] for l in open(os.path.join(V, "properties.jsonl"))]
-checks = json.load(open(os.path.join(V, "checks.json")))
+import glob
+checks = {}
+for p in sorted(glob.glob(os.path.join(V, "checks.d", "*.json"))):
+    checks.update(json.load(open(p)))
 na = json.load(open(os.path.join(V, "na.json"))) if os.path.exists(os.path.join(V, "na.json")) else {}
 base = json.load(open("/root/.vp/BASELINE.json")) if os.path.exists("/root/.vp/BASELINE.json") else None
 old = json.load(open(os.path.join(V, "MANIFEST.json")))
